@@ -21,7 +21,7 @@ THEOREMS = ['C18_dim_nondim_inverse', 'C18_dim_nondim_same', 'C18_nondim_unit_in
             'C18_rate_times_period', 'C18_units_R',
             'C18_time_roundtrips', 'C18_old_code_refuted', 'C18_snap_ms_R',
             'C18_phase_reduced', 'C18_phase_unique', 'C18_phase_advance', 'C18_phase_period',
-            'C18_hyps_satisfiable']
+            'C18_hyps_satisfiable', 'C18_snap_ms_is_source']
 LEVEL = 'proof'
 LEVEL_TEXT = ('machine-checked theorems (Coq): unit algebra for every field, every number of dimensions/units and all '
               'non-zero scales (inverse, unit independence, products, quotients, integer powers, ValueError branch); '
